@@ -36,6 +36,12 @@ func ReadTar(stream []byte) ([]Entry, error) {
 			Linkname: hdr.Linkname,
 			Format:   hdr.Format.String(),
 		}
+		if !hdr.AccessTime.IsZero() {
+			e.ATime = hdr.AccessTime.Unix()
+		}
+		if !hdr.ChangeTime.IsZero() {
+			e.CTime = hdr.ChangeTime.Unix()
+		}
 		if e.Type == '\x00' {
 			e.Type = '0'
 		}
